@@ -30,7 +30,7 @@ COMPONENTS = {"real": ["BasePrimary.to/_parse_to/register_buffer, all shorthands
 ASSUMPTIONS = ["device fixed to CPU", "for float16/bfloat16 only dtypes are checked and exceptions from missing CPU kernels are tolerated (counted)",
                "after a global default change with declared dtype None nothing is asserted about existing buffers until the next simulate"]
 PROBES = ["cast_after_simulate", "resim_after_cast", "to_instrument", "to_tensor", "rejected_non_floating", "default_flip",
-          "half_tolerated_exception", "register_buffer", "derivative_alias", "computed_outputs_checked", "loss_price_checked"]
+          "half_tolerated_exception", "register_buffer", "derivative_alias", "computed_outputs_checked", "loss_price_checked", "register_non_floating_buffer"]
 F = {"f16": torch.float16, "bf16": torch.bfloat16, "f32": torch.float32, "f64": torch.float64}
 
 
@@ -164,7 +164,10 @@ def _execute(program, stats, hist):
                     unknown_old = True
             elif a == "register_buffer":
                 nm = "user%d" % len(user_buffers)
-                p.register_buffer(nm, torch.arange(3, dtype=torch.float32 if len(user_buffers) % 2 else torch.float64))
+                src = [torch.float64, torch.float32, torch.int64, torch.bool][(len(user_buffers) + op["torch_seed"]) % 4]
+                p.register_buffer(nm, torch.arange(3).to(src))
+                if not src.is_floating_point:
+                    stats.probe("register_non_floating_buffer")
                 user_buffers.append(nm)
                 stats.probe("register_buffer")
             elif a in ("simulate", "simulate_derivative"):
